@@ -194,6 +194,60 @@ Proof.
       apply set_nth_other. intros X. apply Hk. left. cbn. exact X.
 Qed.
 
+Lemma set_nth_same_dml {A} i (x d : A) l : (i < length l)%nat -> nth i (set_nth i x l) d = x.
+Proof.
+  revert i. induction l as [|y l IH]; intros i Hi; [cbn in Hi; lia|].
+  destruct i as [|i]; cbn [set_nth nth]; [reflexivity|]. apply IH. cbn in Hi. lia.
+Qed.
+
+(* what the loop writes: every kept joined row (i, j) gives row i of p the columns of p of the updated joined
+   row; no row of p is hit twice (that is the error "ambiguous"), and the count is the number of kept joined rows *)
+Lemma update_join_loop_values sets ps cs : forall hs done acc out n,
+  update_join_loop sets ps cs hs done acc = Ok (out, n) ->
+  NoDup (map fst hs) /\ (forall i, In i (map fst hs) -> ~ In i done) /\
+  n = Z.of_nat (length done + length hs) /\
+  (forall i j, In (i, j) hs -> (i < length acc)%nat ->
+     exists r', update_row sets (nth i ps [] ++ nth j cs []) = Ok r' /\
+                nth i out [] = firstn (length (nth i ps [])) r').
+Proof.
+  induction hs as [|[i j] hs IH]; intros done acc out n H; cbn [update_join_loop] in H.
+  - inversion H. repeat split; [constructor|intros i []|cbn; f_equal; lia|intros i j []].
+  - destruct (update_row sets (nth i ps [] ++ nth j cs [])) as [r'|e] eqn:Er; cbn [bind] in H; [|discriminate].
+    destruct (existsb (Nat.eqb i) done) eqn:Ed; [discriminate|].
+    destruct (IH _ _ _ _ H) as (ND & Dj & Hn & Hv).
+    destruct (update_join_loop_frame sets ps cs hs (i :: done) _ out n H) as [L F].
+    assert (Hi : ~ In i (map fst hs)) by (intros X; apply (Dj i X); left; reflexivity).
+    assert (Hd : ~ In i done).
+    { intros X. assert (existsb (Nat.eqb i) done = true) by (apply existsb_exists; exists i; split; [exact X|apply Nat.eqb_refl]). congruence. }
+    repeat split.
+    + cbn [map fst]. constructor; assumption.
+    + intros k [<-|Hk]; [exact Hd|]. intros X. apply (Dj k Hk). right. exact X.
+    + rewrite Hn. cbn [length]. f_equal. lia.
+    + intros a b [E|Hin] Ha.
+      * inversion E; subst a b. exists r'. split; [exact Er|].
+        rewrite (F i Hi). apply set_nth_same_dml. exact Ha.
+      * apply Hv; [exact Hin|]. rewrite set_nth_length. exact Ha.
+Qed.
+
+(* multi-table UPDATE, the values: a row of p that takes part in a kept joined row takes part in exactly one (or
+   the statement fails), and it becomes the p-columns of that joined row after the SET items were applied to it
+   as it was before the statement; the count is the number of such rows *)
+Theorem update_join_values sets on wh ps cs ps' n :
+  update_join sets on wh ps cs = Ok (ps', n) ->
+  exists hs, join_hits on wh ps cs = Ok hs /\ NoDup (map fst hs) /\ n = Z.of_nat (length hs) /\
+    forall i j, In (i, j) hs ->
+      exists r', update_row sets (nth i ps [] ++ nth j cs []) = Ok r' /\
+                 nth i ps' [] = firstn (length (nth i ps [])) r'.
+Proof.
+  unfold update_join. destruct (join_hits on wh ps cs) as [hs|e] eqn:H; cbn [bind]; [|discriminate].
+  intros E. exists hs. split; [reflexivity|].
+  destruct (update_join_loop_values sets ps cs hs [] ps ps' n E) as (ND & _ & Hn & Hv).
+  split; [exact ND|]. split; [exact Hn|].
+  intros i j Hin. apply Hv; [exact Hin|].
+  apply (join_hits_spec on wh ps cs hs H) in Hin. destruct Hin as (p & c & Hp & _).
+  apply nth_error_Some. congruence.
+Qed.
+
 Theorem update_join_frame sets on wh ps cs ps' n :
   update_join sets on wh ps cs = Ok (ps', n) ->
   length ps' = length ps /\
